@@ -182,8 +182,8 @@ fn gen_leaf(ty: Ty, depth: u32) -> BoxedStrategy<Leaf> {
         // a path destined for a `string` field: UTF-8 text (relative, absolute, empty, with NUL and
         // multi-byte characters), and - rarely - raw bytes that are not UTF-8
         Ty::StrPath => prop_oneof![
-            10 => string_any().prop_map(|s| Leaf::Bytes(s.into_bytes())),
-            2 => (string_any(), string_any()).prop_map(|(a, b)| Leaf::Bytes(format!("/{a}/{b}").into_bytes())),
+            30 => string_any().prop_map(|s| Leaf::Bytes(s.into_bytes())),
+            9 => (string_any(), string_any()).prop_map(|(a, b)| Leaf::Bytes(format!("/{a}/{b}").into_bytes())),
             1 => bytes_any().prop_map(Leaf::Bytes),
         ]
         .boxed(),
